@@ -171,6 +171,8 @@ def make_builtins(interp):
             return cls.check(obj)
         if cls is slice:
             return isinstance(obj, slice)
+        if isinstance(cls, ExcTag):
+            return isinstance(obj, PyRaise) and (obj.exc_type == cls.name or cls.name in ("Exception", "BaseException"))
         if isinstance(cls, Opaque):
             if isinstance(obj, (Instance, NDArr)) or is_scalar(obj) or isinstance(obj, (str, list, tuple, dict)) or obj is None:
                 return False if "numbers" not in cls.what else (is_num(obj))
@@ -320,7 +322,7 @@ def make_builtins(interp):
         "sorted": _sorted, "tuple": TypeTag("tuple", _tuple), "list": TypeTag("list", _list), "bool": TypeTag("bool", _bool), "str": TypeTag("str", _str),
         "float": TypeTag("float", _to_float), "int": TypeTag("int", _to_int), "round": _round,
         "dict": TypeTag("dict", lambda *a, **k: dict(*a, **k)), "set": TypeTag("set", lambda it=(): set(interp.iterate(it))),
-        "frozenset": lambda it=(): frozenset(interp.iterate(it)),
+        "frozenset": TypeTag("frozenset", lambda it=(): frozenset(interp.iterate(it))),
         "reversed": lambda it: list(reversed(interp.iterate(it))),
         "iter": _iter, "next": _next, "id": lambda x: id(x), "repr": lambda x: Opaque("repr"),
         "print": lambda *a, **k: None, "slice": slice, "Ellipsis": Ellipsis,
@@ -416,7 +418,7 @@ class TypeTag:
             return isinstance(obj, tuple)
         if n == "dict":
             return isinstance(obj, dict)
-        if n == "set":
+        if n in ("set", "frozenset"):
             return isinstance(obj, (set, frozenset))
         if n == "ndarray":
             return isinstance(obj, NDArr)
